@@ -56,6 +56,12 @@ CHECKS = {
   text="Round trips over every u16 value (from_u16 domain inside the declared discriminants of both enums read from the tree, as_u16 / KeyCode transmute round trips, the two enums agree value for value), pipeline identity for every valid code (mapped to itself, transparent, process-unmapped-keys; reserved codes never output), every key name denotes the same code as layer action, macro item, fork trigger, switch key, override input, chords-v2 participant, defseq key and defsrc entry, and Cfg.mapped_keys equals the expected set for generated defsrc / deflayermap / process-unmapped-keys combinations.",
   note="Linux tables only; enum bodies and key names are extracted from the tree under test. Placeholder variants declared in OsCode but not produced by from_u16 (KEY_749..766) are allowed and counted. Right-hand modifiers in defseq (F20) are a known finding shared with C12. The Miri run of the transmute round trip (DESIGN.md) is not part of the registered commands."),
 
+ "C13": dict(
+  cat="exploration", ref="DESIGN.md §4 C13",
+  technique="exhaustive enumeration of all ordered active-key lists (<= 4 of 12 keys) per override table against a reference function (tables compiled by the real parser, real Overrides::override_keys), plus proptest-generated press/release histories through the whole state machine with a quiescent-point invariant",
+  text="For each override table every ordered list of up to 4 distinct keys from 8 modifiers + 4 keys (13 345 lists) is transformed by the real code and compared, as a key set, with the reference (containment of the modifier set, most modifiers wins, replaced keys removed, outputs added, other keys untouched). Through the pipeline, at every quiescent point the OS key set must equal the reference applied to the keys the layout holds, and nothing may stay down after the last release (override-release-on-activation on and off).",
+  note="Where the statement is silent the oracle is a validity predicate: a modifier listed after the key may or may not count; ties between overrides with equally many modifiers may go either way. With override-release-on-activation only the end state is asserted."),
+
  "C17": dict(
   cat="exploration", ref="DESIGN.md §4 C17, Appendix A.4/D",
   technique="model-based property testing: exhaustive schedule enumeration over the tap-dance key and one other key with gaps {0,1,T-1,T,T+1} + proptest-generated longer histories, compared with a reference model of lazy and eager tap-dance",
